@@ -146,8 +146,10 @@ func runFmtCase(env *Env, id string, c fmtCase, dir string) {
 				}
 			}()
 			var sb strings.Builder
+			pieces := []string{}
 			for _, f := range cur {
-				sb.WriteString(writeFmt(buildAl(f), h))
+				pieces = append(pieces, writeFmt(buildAl(f), h))
+				sb.WriteString(pieces[len(pieces)-1])
 			}
 			text := sb.String()
 			ev.NBytes = len(text)
@@ -166,7 +168,9 @@ func runFmtCase(env *Env, id string, c fmtCase, dir string) {
 					ev.Kind, ev.Msg = "err", "open for writing: "+err.Error()
 					return
 				}
-				w.WriteString(text)
+				for _, piece := range pieces { // one write per alignment, as the command line does
+					w.WriteString(piece)
+				}
 				utils.CloseWriteFile(w, path)
 				closer, rd, err = utils.GetReader(path)
 				if err != nil {
@@ -178,7 +182,7 @@ func runFmtCase(env *Env, id string, c fmtCase, dir string) {
 			var err error
 			multi := len(cur) != 1
 			if h.Auto {
-				if multi || h.Fmt == "phylip" {
+				if multi || (h.Fmt == "phylip" && hi%2 == 1) {
 					var ch *align.AlignChannel
 					var f int
 					ch, f, err = utils.ParseMultiAlignmentsAuto(nil, rd, h.Strict, align.BOTH)
@@ -261,6 +265,10 @@ func randFmtAl(rng *rand.Rand, tier string, strictNames bool) fmtAl {
 				k = 1 + rng.Intn(10)
 			}
 			nm = make([]byte, k)
+			if strictNames && rng.Intn(3) == 0 {
+				k = 10 // the strict name field exactly filled
+				nm = make([]byte, k)
+			}
 			nm[0] = nameChars[rng.Intn(22)] // starts with a letter
 			for j := 1; j < k; j++ {
 				nm[j] = nameChars[rng.Intn(len(nameChars))]
@@ -306,6 +314,34 @@ func randFmtCase(rng *rand.Rand, tier string) fmtCase {
 	for i := 0; i < nal; i++ {
 		c.Als = append(c.Als, randFmtAl(rng, tier, strict))
 	}
+	if nal > 1 && rng.Intn(2) == 0 {
+		// a small alignment followed by a large one (several kilobytes once written), same sequence length or not
+		big := fmtAl{}
+		for r := 0; r < 8; r++ {
+			s := make([]int, 610)
+			for j := range s {
+				s[j] = int("ACGT"[rng.Intn(4)])
+			}
+			big.Rows = append(big.Rows, Row{s2i(fmt.Sprintf("big%d", r)), s})
+		}
+		c.Als = append(c.Als[:1], append([]fmtAl{big}, c.Als[1:]...)...)
+	}
+	if nal > 1 && rng.Intn(2) == 0 {
+		// decreasing numbers of sequences with one common length
+		L := len(c.Als[0].Rows[0].S)
+		for k := range c.Als {
+			for len(c.Als[k].Rows) < nal-k+1 {
+				c.Als[k].Rows = append(c.Als[k].Rows, Row{s2i(fmt.Sprintf("x%d", len(c.Als[k].Rows))), nil})
+			}
+			for r := range c.Als[k].Rows {
+				row := make([]int, L)
+				for j := range row {
+					row[j] = int("ACGT"[rng.Intn(4)])
+				}
+				c.Als[k].Rows[r].S = row
+			}
+		}
+	}
 	return c
 }
 
@@ -342,6 +378,7 @@ type parseCase struct {
 	Alpha  int    `json:"alpha"`
 	Plen   int    `json:"plen"`
 	Bytes  []int  `json:"bytes"`
+	Decl   [][]int `json:"decl"` // when the generator knows it: the (sequences, length) of every alignment of the stream
 }
 type parseOut struct {
 	Rows []Row `json:"rows"`
@@ -392,6 +429,9 @@ func viewBag(sb align.SeqBag, kind string) parseOut {
 
 func doParse(c parseCase) (ev parseEvent) {
 	ev = parseEvent{C: c, Outs: []parseOut{}, Part: []int{}}
+	if ev.C.Decl == nil {
+		ev.C.Decl = [][]int{}
+	}
 	defer func() {
 		if r := recover(); r != nil {
 			if _, ok := r.(eofLoop); ok {
@@ -479,6 +519,9 @@ func doParse(c parseCase) (ev parseEvent) {
 
 func runParseCase(env *Env, id string, c parseCase) {
 	// an intent line first: if the process dies inside the parser (io.ExitWithMessage) the orchestrator attributes it
+	if c.Decl == nil {
+		c.Decl = [][]int{}
+	}
 	env.Emit(parseEvent{ID: id, C: c, Kind: "intent", Outs: []parseOut{}, Part: []int{}})
 	env.Flush()
 	done := make(chan parseEvent, 1)
@@ -634,6 +677,24 @@ func parseFamily(env *Env) error {
 	rng := rand.New(rand.NewSource(env.Seed))
 	files := validFiles(rng)
 	full := env.Tier == "thorough"
+	// unmodified Phylip streams whose layout is known: decreasing / increasing counts with one common length, mixed lengths
+	for _, lay := range [][][]int{{{3, 4}, {2, 4}}, {{2, 4}, {3, 4}, {1, 4}}, {{4, 6}, {2, 6}, {2, 3}, {1, 6}}, {{2, 5}}} {
+		var sb strings.Builder
+		for _, d := range lay {
+			f := fmtAl{}
+			for r := 0; r < d[0]; r++ {
+				s := make([]int, d[1])
+				for j := range s {
+					s[j] = int("ACGT"[rng.Intn(4)])
+				}
+				f.Rows = append(f.Rows, Row{s2i(fmt.Sprintf("sq%d", r+1)), s})
+			}
+			sb.WriteString(phylip.WriteAlignment(buildAl(f), false, false, false))
+		}
+		for _, strict := range []bool{false} {
+			run("stream", parseCase{Fmt: "phylipmulti", Strict: strict, Alpha: align.BOTH, Plen: 12, Bytes: s2i(sb.String()), Decl: lay})
+		}
+	}
 	order := []string{"fasta", "phylip", "phylipstrict", "phylipmulti", "nexus", "clustal", "stockholm", "partition"}
 	for _, f := range order {
 		for _, text := range files[f] {
